@@ -263,7 +263,7 @@ func (c *Config) flattenedKeys(visiting map[*Config]struct{}, opts ...Option) []
 }
 
 func (f *fields) get(name string) (value, bool) {
-	if f.d == nil {
+	if f == nil || f.d == nil {
 		return nil, false
 	}
 	v, found := f.d[name]
@@ -271,10 +271,16 @@ func (f *fields) get(name string) (value, bool) {
 }
 
 func (f *fields) dict() map[string]value {
+	if f == nil { // zero value Config
+		return nil
+	}
 	return f.d
 }
 
 func (f *fields) array() []value {
+	if f == nil { // zero value Config
+		return nil
+	}
 	return f.a
 }
 
